@@ -14,10 +14,13 @@ import (
 	"go/ast"
 	"go/parser"
 	"go/token"
+	"go/types"
 	"os"
 	"path/filepath"
 	"sort"
 	"strings"
+
+	"golang.org/x/tools/go/packages"
 )
 
 type srcEdit struct {
@@ -172,4 +175,289 @@ func rewriteTaglessSwitches(name string, src []byte) ([]byte, bool) {
 		return nil, false
 	}
 	return nsrc, true
+}
+
+// ---- second normalisation: trivial predicate methods are read where they are called ----
+//
+// `func (u *Url) hasHost() bool { return u.host != nil }` … `if u.hasHost() { *u.host }` means `if u.host != nil`.
+// Rules that look for a nil test, a flag test or a comparison in front of a dereference, a store or a return would
+// each have to look through such accessors; instead the loader is handed the call sites with the body substituted
+// (again through the overlay, line for line). Only methods that the reference inventory does not know (the rules name
+// some predicates of the reviewed tree) and whose body is one `return E` with E built from fields of the receiver,
+// literals, nil, comparisons, !, && and || — no calls other than to methods of the same kind on the same receiver —
+// are substituted, and only at calls without arguments whose receiver expression is an identifier or a chain of field
+// selections. If anything about the rewritten text does not parse, the file is left as it is.
+
+// KnownFuncs: "pkg.Owner.name" of the functions the reference inventory knows (set by the command before Load).
+var KnownFuncs map[string]bool
+
+type trivialPred struct {
+	fn   *types.Func
+	recv *types.Var
+	body ast.Expr
+	file *token.File
+	src  []byte
+}
+
+// PredicateOverlay extends ov (file name -> content, may be nil) by the substitution of trivial predicate methods.
+func PredicateOverlay(dir string, env []string, ov map[string][]byte) map[string][]byte {
+	cfg := &packages.Config{Mode: packages.NeedName | packages.NeedFiles | packages.NeedCompiledGoFiles | packages.NeedImports | packages.NeedDeps | packages.NeedTypes | packages.NeedSyntax | packages.NeedTypesInfo | packages.NeedTypesSizes,
+		Dir: dir, Env: env, Tests: false, Overlay: ov}
+	pkgs, err := packages.Load(cfg, "./...")
+	if err != nil {
+		return ov
+	}
+	for _, p := range pkgs {
+		if len(p.Errors) > 0 {
+			return ov
+		}
+	}
+	content := func(name string) []byte {
+		if b, ok := ov[name]; ok {
+			return b
+		}
+		b, _ := os.ReadFile(name)
+		return b
+	}
+	out := map[string][]byte{}
+	for k, v := range ov {
+		out[k] = v
+	}
+	for _, pk := range pkgs {
+		if !strings.HasPrefix(pk.PkgPath, ModPath) {
+			continue
+		}
+		info := pk.TypesInfo
+		preds := map[*types.Func]*trivialPred{}
+		// candidates
+		for _, f := range pk.Syntax {
+			tf := pk.Fset.File(f.Pos())
+			for _, d := range f.Decls {
+				fd, ok := d.(*ast.FuncDecl)
+				if !ok || fd.Recv == nil || len(fd.Recv.List) != 1 || len(fd.Recv.List[0].Names) != 1 || fd.Body == nil || len(fd.Body.List) != 1 {
+					continue
+				}
+				if fd.Type.Params != nil && len(fd.Type.Params.List) > 0 {
+					continue
+				}
+				ret, ok := fd.Body.List[0].(*ast.ReturnStmt)
+				if !ok || len(ret.Results) != 1 {
+					continue
+				}
+				fn, _ := info.Defs[fd.Name].(*types.Func)
+				rv, _ := info.Defs[fd.Recv.List[0].Names[0]].(*types.Var)
+				if fn == nil || rv == nil || fn.Exported() {
+					continue
+				}
+				sig := fn.Type().(*types.Signature)
+				if sig.Results().Len() != 1 || !types.Identical(sig.Results().At(0).Type(), types.Typ[types.Bool]) {
+					continue
+				}
+				owner := ""
+				if n := namedTypeOf(rv.Type()); n != nil {
+					owner = n.Obj().Name()
+				}
+				if KnownFuncs[pk.Name+"."+owner+"."+fn.Name()] {
+					continue
+				}
+				preds[fn] = &trivialPred{fn: fn, recv: rv, body: ret.Results[0], file: tf, src: content(tf.Name())}
+			}
+		}
+		// keep those whose body is of the permitted form (calls only to other candidates on the receiver)
+		var okBody func(p *trivialPred, e ast.Expr, depth int) bool
+		okBody = func(p *trivialPred, e ast.Expr, depth int) bool {
+			if depth > 12 {
+				return false
+			}
+			switch x := e.(type) {
+			case *ast.ParenExpr:
+				return okBody(p, x.X, depth+1)
+			case *ast.UnaryExpr:
+				return x.Op == token.NOT && okBody(p, x.X, depth+1)
+			case *ast.BinaryExpr:
+				switch x.Op {
+				case token.EQL, token.NEQ, token.LSS, token.LEQ, token.GTR, token.GEQ, token.LAND, token.LOR:
+					return okBody(p, x.X, depth+1) && okBody(p, x.Y, depth+1)
+				}
+				return false
+			case *ast.BasicLit:
+				return true
+			case *ast.Ident:
+				switch info.Uses[x].(type) {
+				case *types.Nil, *types.Const:
+					return true
+				}
+				return false
+			case *ast.StarExpr:
+				return okBody(p, x.X, depth+1)
+			case *ast.SelectorExpr:
+				id, ok := x.X.(*ast.Ident)
+				if !ok || info.Uses[id] != types.Object(p.recv) {
+					return false
+				}
+				v, ok := info.Uses[x.Sel].(*types.Var)
+				return ok && v.IsField()
+			case *ast.CallExpr:
+				if len(x.Args) != 0 {
+					return false
+				}
+				sel, ok := x.Fun.(*ast.SelectorExpr)
+				if !ok {
+					return false
+				}
+				id, ok := sel.X.(*ast.Ident)
+				if !ok || info.Uses[id] != types.Object(p.recv) {
+					return false
+				}
+				q, _ := info.Uses[sel.Sel].(*types.Func)
+				return q != nil && preds[q] != nil && q != p.fn
+			}
+			return false
+		}
+		for changed := true; changed; {
+			changed = false
+			for fn, p := range preds {
+				if !okBody(p, p.body, 0) {
+					delete(preds, fn)
+					changed = true
+				}
+			}
+		}
+		if len(preds) == 0 {
+			continue
+		}
+		// the body of p with the receiver written as recvText, nested predicates substituted
+		var render func(p *trivialPred, recvText string, depth int) (string, bool)
+		render = func(p *trivialPred, recvText string, depth int) (string, bool) {
+			if depth > 3 {
+				return "", false
+			}
+			type rep struct {
+				from, to int
+				text     string
+			}
+			var reps []rep
+			ok := true
+			ast.Inspect(p.body, func(n ast.Node) bool {
+				switch x := n.(type) {
+				case *ast.CallExpr:
+					sel := x.Fun.(*ast.SelectorExpr)
+					q := preds[info.Uses[sel.Sel].(*types.Func)]
+					t, ok2 := render(q, recvText, depth+1)
+					if !ok2 {
+						ok = false
+						return false
+					}
+					reps = append(reps, rep{p.file.Offset(x.Pos()), p.file.Offset(x.End()), "(" + t + ")"})
+					return false
+				case *ast.Ident:
+					if info.Uses[x] == types.Object(p.recv) {
+						reps = append(reps, rep{p.file.Offset(x.Pos()), p.file.Offset(x.End()), recvText})
+					}
+				}
+				return true
+			})
+			if !ok {
+				return "", false
+			}
+			sort.Slice(reps, func(i, j int) bool { return reps[i].from < reps[j].from })
+			a, b := p.file.Offset(p.body.Pos()), p.file.Offset(p.body.End())
+			var sb strings.Builder
+			pos := a
+			for _, r := range reps {
+				if r.from < pos {
+					return "", false
+				}
+				sb.Write(p.src[pos:r.from])
+				sb.WriteString(r.text)
+				pos = r.to
+			}
+			sb.Write(p.src[pos:b])
+			t := sb.String()
+			if strings.Contains(t, "\n") {
+				return "", false
+			}
+			return t, true
+		}
+		pureRecv := func(e ast.Expr) bool {
+			for {
+				switch x := e.(type) {
+				case *ast.Ident:
+					_, isVar := info.Uses[x].(*types.Var)
+					return isVar
+				case *ast.SelectorExpr:
+					v, ok := info.Uses[x.Sel].(*types.Var)
+					if !ok || !v.IsField() {
+						return false
+					}
+					e = x.X
+				default:
+					return false
+				}
+			}
+		}
+		// call sites
+		for _, f := range pk.Syntax {
+			tf := pk.Fset.File(f.Pos())
+			src := content(tf.Name())
+			var edits []srcEdit
+			ast.Inspect(f, func(n ast.Node) bool {
+				call, ok := n.(*ast.CallExpr)
+				if !ok || len(call.Args) != 0 {
+					return true
+				}
+				sel, ok := call.Fun.(*ast.SelectorExpr)
+				if !ok {
+					return true
+				}
+				q, _ := info.Uses[sel.Sel].(*types.Func)
+				p := preds[q]
+				if p == nil || !pureRecv(sel.X) {
+					return true
+				}
+				// not inside the body of a predicate that is itself substituted (its text is read from the original)
+				recvText := string(src[tf.Offset(sel.X.Pos()):tf.Offset(sel.X.End())])
+				t, ok := render(p, recvText, 0)
+				if !ok {
+					return true
+				}
+				edits = append(edits, srcEdit{tf.Offset(call.Pos()), tf.Offset(call.End()), "(" + t + ")"})
+				return false
+			})
+			if len(edits) == 0 {
+				continue
+			}
+			sort.Slice(edits, func(i, j int) bool { return edits[i].from < edits[j].from })
+			var sb strings.Builder
+			pos := 0
+			bad := false
+			for _, e := range edits {
+				if e.from < pos || strings.Contains(string(src[e.from:e.to]), "\n") {
+					bad = true
+					break
+				}
+				sb.Write(src[pos:e.from])
+				sb.WriteString(e.text)
+				pos = e.to
+			}
+			if bad {
+				continue
+			}
+			sb.Write(src[pos:])
+			nsrc := []byte(sb.String())
+			if _, err := parser.ParseFile(token.NewFileSet(), tf.Name(), nsrc, parser.SkipObjectResolution); err != nil {
+				continue
+			}
+			out[tf.Name()] = nsrc
+		}
+	}
+	return out
+}
+
+func namedTypeOf(t types.Type) *types.Named {
+	if p, ok := t.(*types.Pointer); ok {
+		t = p.Elem()
+	}
+	n, _ := t.(*types.Named)
+	return n
 }
